@@ -576,7 +576,7 @@ fn closing_signature_spent_as_pay_token(c: &mut Ctx, m: &'static Merchant, m2: &
             if b.close_sig.is_none() {
                 return c.inconclusive("C18: Ready layout no longer shows the closing signature");
             }
-            let j = c02::PayJudge { b: &b, context: b"c18-forger".to_vec(), prop: "C18", accepted_nonces: Default::default() };
+            let j = c02::PayJudge { b: &b, context: b"c18-forger".to_vec(), prop: "C18", accepted_nonces: Default::default(), accepted_blinded: Default::default() };
             let amt = 4i64;
             let tp = c02::true_plan(&b, &mut rng, amt);
             let pr = crate::shadow::PayProver::commit(&mut rng, m, &tp.w);
